@@ -75,7 +75,7 @@ class MState:
     pending: frozenset = frozenset()
     timer_fired: bool = False
     lost: bool = False
-    first_disp: str = ""
+    first_disp: str = field(default="", compare=False)
 
 
 @dataclass
@@ -137,6 +137,7 @@ class Machine:
         self.n_states = 0
         self.n_activations = 0
         self._seen_v: set[tuple] = set()
+        self._n_viol = 0
         self.callbacks: set[str] = set()
         self.event_sites: dict[str, set[str]] = {}
 
@@ -158,46 +159,64 @@ class Machine:
                 names.append(callee.node.name)
         return ">".join(names) + ":" + kind
 
+    def _templates(self, g: Graph, n: Node) -> tuple:
+        """Static part of event classification, computed once per node:
+        tuples (kind, info, normal_only, skip_on_exc, chain)."""
+        t = n.extra.get("_ev")
+        if t is not None:
+            return t
+        out = []
+        m = self.m
+        if n.ast is not None and n.kind in ("stmt", "test", "with"):
+            for c in calls(n.ast):
+                mc = method_call(c)
+                d = dotted(c.func) or ""
+                normal_only = _in_task_creation(c, n.ast)
+                if mc and dotted(mc[0]) == m.transport and mc[1] in ("write", "writelines"):
+                    out.append(("write", norm(c)[:80], normal_only, True, self.chain(g, n, "write")))
+                elif mc and dotted(mc[0]) == m.transport and mc[1] in ("close", "abort"):
+                    out.append(("close", "", normal_only, False, self.chain(g, n, "close")))
+                elif d == m.handler:
+                    out.append(("dispatch", "handler", normal_only, False, self.chain(g, n, "handler")))
+                elif mc and dotted(mc[0]) == m.upload:
+                    out.append(("dispatch", "upload", normal_only, False, self.chain(g, n, "upload")))
+                elif mc and dotted(mc[0]) == m.middleware:
+                    out.append(("consult", "", normal_only, False, self.chain(g, n, "consult")))
+                elif mc and mc[1] == "add_done_callback" and c.args:
+                    cb = _callback_target(c.args[0])
+                    if cb:
+                        out.append(("pending", cb, True, True, self.chain(g, n, "pending")))
+                elif mc and dotted(mc[0]) == m.timer and mc[1] == "cancel":
+                    out.append(("cancel", "", normal_only, False, ""))
+                elif mc and mc[1] in ("call_later", "call_at") and any(
+                    (dotted(a) or "") == f"self.{m.timeout_method}" for a in c.args
+                ):
+                    out.append(("arm", "", True, True, ""))
+            for kind, *_ in out:
+                self.event_sites.setdefault(kind, set()).add(f"{n.where()}:{n.text(60)}")
+        t = tuple(out)
+        n.extra["_ev"] = t
+        return t
+
     def classify(self, g: Graph, n: Node, label, facts: BoolFacts) -> list[Event]:
-        if n.ast is None or n.kind not in ("stmt", "test", "with"):
+        tmpl = self._templates(g, n)
+        if not tmpl:
             return []
         out: list[Event] = []
-        m = self.m
-        timer_off = facts.truth.get(m.timer) is False
-        for c in calls(n.ast):
-            mc = method_call(c)
-            d = dotted(c.func) or ""
-            normal_only = _in_task_creation(c, n.ast)
-            if normal_only and label in ("exc", "raise"):
+        exc = label in ("exc", "raise")
+        timer_off = facts.truth.get(self.m.timer) is False
+        for kind, info, normal_only, skip_on_exc, chain in tmpl:
+            if exc and (normal_only or skip_on_exc):
                 continue
-            if mc and dotted(mc[0]) == m.transport and mc[1] in ("write", "writelines"):
-                if label in ("exc",):
-                    continue
-                out.append(Event("write", n.id, norm(c)[:80], chain=self.chain(g, n, "write")))
-            elif mc and dotted(mc[0]) == m.transport and mc[1] in ("close", "abort"):
-                out.append(Event("close", n.id, chain=self.chain(g, n, "close")))
-            elif d == m.handler:
-                out.append(self._disp(g, n, "handler", facts, timer_off))
-            elif mc and dotted(mc[0]) == m.upload:
-                out.append(self._disp(g, n, "upload", facts, timer_off))
-            elif mc and dotted(mc[0]) == m.middleware:
-                out.append(Event("consult", n.id, timer_off=timer_off, chain=self.chain(g, n, "consult")))
-            elif mc and mc[1] == "add_done_callback" and c.args and label not in ("exc", "raise"):
-                cb = _callback_target(c.args[0])
-                if cb:
-                    out.append(Event("pending", n.id, cb, chain=self.chain(g, n, "pending")))
-            elif mc and dotted(mc[0]) == m.timer and mc[1] == "cancel":
-                out.append(Event("cancel", n.id))
-            elif mc and mc[1] in ("call_later", "call_at") and any(
-                (dotted(a) or "") == f"self.{m.timeout_method}" for a in c.args
-            ):
-                if label not in ("exc", "raise"):
-                    out.append(Event("arm", n.id))
-        for e in out:
-            self.event_sites.setdefault(e.kind, set()).add(f"{n.where()}:{n.text(60)}")
+            if kind == "dispatch":
+                out.append(self._disp(g, n, info, facts, timer_off, chain))
+            elif kind == "consult":
+                out.append(Event("consult", n.id, timer_off=timer_off, chain=chain))
+            else:
+                out.append(Event(kind, n.id, info, chain=chain))
         return out
 
-    def _disp(self, g, n, what, facts, timer_off) -> Event:
+    def _disp(self, g, n, what, facts, timer_off, chain) -> Event:
         allow_true = any(
             v is True for k, v in facts.truth.items() if k in self._allow_names(g)
         )
@@ -206,7 +225,7 @@ class Machine:
             allow_true=allow_true,
             mw_false=facts.truth.get(self.m.middleware) is False,
             timer_off=timer_off,
-            chain=self.chain(g, n, what),
+            chain=chain,
         )
 
     def _allow_names(self, g: Graph) -> set[str]:
@@ -260,16 +279,78 @@ class Machine:
                 return False
             return True
 
-        res = walk_paths(g, g.entry.id, (facts0.copy(), ()), step, edge_ok=edge_ok, max_paths=200000)
-        out = []
-        for path, (facts, events) in res:
-            end = path[-1][0]
-            if end.kind not in ("exit", "raise_exit"):
-                continue
-            out.append(PathResult(events, facts, end.kind, path))
+        if self._acyclic(g):
+            # loop-free super-graph: exact dynamic programming over
+            # (node, facts); paths that agree on events and final facts are
+            # merged, one representative CFG path is kept as witness
+            memo: dict[tuple, list] = {}
+
+            def dp(nid: int, facts: BoolFacts):
+                k = (nid, facts.key())
+                r = memo.get(k)
+                if r is not None:
+                    return r
+                n = g.nodes[nid]
+                if not g.succ[nid]:
+                    r = [((), facts, n.kind, (n, None, None))]
+                else:
+                    acc: dict[tuple, tuple] = {}
+                    for b, lab in g.succ[nid]:
+                        if not edge_ok(n, g.nodes[b], lab):
+                            continue
+                        st2 = step((facts, ()), n, lab)
+                        if st2 is None:
+                            continue
+                        f2, evs = st2
+                        for ev2, fend, kind, p in dp(b, f2):
+                            kk = (evs + ev2, fend.key(), kind)
+                            if kk not in acc:
+                                acc[kk] = (evs + ev2, fend, kind, (n, lab, p))
+                    r = list(acc.values())
+                memo[k] = r
+                return r
+
+            out = [
+                PathResult(evs, fend, kind, _unlink(path))
+                for evs, fend, kind, path in dp(g.entry.id, facts0.copy())
+                if kind in ("exit", "raise_exit")
+            ]
+        else:
+            res = walk_paths(g, g.entry.id, (facts0.copy(), ()), step, edge_ok=edge_ok, max_paths=200000)
+            out = []
+            for path, (facts, events) in res:
+                end = path[-1][0]
+                if end.kind not in ("exit", "raise_exit"):
+                    continue
+                out.append(PathResult(events, facts, end.kind, path))
         self.n_paths += len(out)
         self.cache[key] = out
         return out
+
+    def _acyclic(self, g: Graph) -> bool:
+        if not hasattr(self, "_acyc"):
+            self._acyc = {}
+        if id(g) not in self._acyc:
+            color: dict[int, int] = {}
+            ok = True
+            stack = [(g.entry.id, iter(g.succ[g.entry.id]))]
+            color[g.entry.id] = 1
+            while stack and ok:
+                nid, it = stack[-1]
+                for b, _lab in it:
+                    c = color.get(b, 0)
+                    if c == 1:
+                        ok = False
+                        break
+                    if c == 0:
+                        color[b] = 1
+                        stack.append((b, iter(g.succ[b])))
+                        break
+                else:
+                    color[nid] = 2
+                    stack.pop()
+            self._acyc[id(g)] = ok
+        return self._acyc[id(g)]
 
     # ---------------------------------------------------------- explore
     def _latches(self) -> set[str]:
@@ -368,6 +449,10 @@ class Machine:
         return h
 
     def _violate(self, kind, chain, entry, msg, node: Node | None, s, seen, g, pr, extra="") -> None:
+        if kind in ("double-dispatch", "write-after-close", "second-header", "half-response"):
+            # the run is already broken beyond repair: continuations of this
+            # state would only repeat the same report
+            self._n_viol += 1
         tag = (kind, chain, extra)
         if tag in self._seen_v:
             return
@@ -386,6 +471,7 @@ class Machine:
         m = self.m
         g = self.graph(entry)
         closed, wrote_open, ndisp, gate = s.closed, s.wrote_open, s.ndisp, s.gate
+        n_viol_before = self._n_viol
         pending = set(s.pending)
         first_disp = s.first_disp
         timer_fired = s.timer_fired or entry == m.timeout_method
@@ -445,8 +531,9 @@ class Machine:
         t, n = self._project(pr.facts)
         transport_gone = (m.transport, False) in t or lost
         timer_off = (m.timer, False) in t or timer_fired
-        if wrote_open and not closed and pr.end_kind == "exit":
-            last = [e for e in pr.events if e.kind == "write"][-1]
+        ws = [e for e in pr.events if e.kind == "write"]
+        if wrote_open and not closed and pr.end_kind == "exit" and ws:
+            last = ws[-1]
             self._violate("half-response", last.chain, entry, "activation ends after a transport write that is not followed by close()", g.nodes[last.node], s, seen, g, pr)
         if not closed and not pending and timer_off and not transport_gone and entry not in ("connection_lost",):
             self._violate(
@@ -454,6 +541,9 @@ class Machine:
                 "activation ends with the connection open, no response written, no pending callback and the request timer disarmed: the peer is never answered nor disconnected",
                 pr.path[-2][0] if len(pr.path) > 1 else None, s, seen, g, pr,
             )
+        if self._n_viol != n_viol_before:
+            # a violating run is reported once; its continuations add nothing
+            return None
         return MState(t, n, closed, wrote_open and not closed, ndisp, gate, frozenset(pending), timer_fired, lost, first_disp)
 
     def _end_chain(self, g: Graph, pr: PathResult) -> str:
@@ -464,6 +554,14 @@ class Machine:
         return self.chain(g, pr.path[-1][0], "end")
 
     mw_callbacks: set[str] = set()
+
+
+def _unlink(cell) -> list:
+    out = []
+    while cell is not None:
+        n, lab, cell = cell
+        out.append((n, lab))
+    return out
 
 
 LOOP_API = {"get_running_loop", "get_event_loop", "create_task", "ensure_future", "call_later", "call_at", "call_soon", "add_done_callback"}
